@@ -80,9 +80,15 @@ def run_scenario(wd, i, script, followers):
         b = os.path.join(wd, "t%d_f%d.ndjson" % (i, f))
         args = ["chain", "--role", "follow", "--name", "follow%d" % f, "--script", sp,
                 "--blocks", os.path.join(wd, "b%d.json" % i), "--out", b, "--scn", str(i)]
+        env = None
         if f % 2 == 0:
+            # a replica on a machine configured differently: node-local options, and a local time zone far from UTC
             args.append("--noise")
-        hv(args, cwd=wd)
+            env = dict(os.environ, TZ="Pacific/Kiritimati")
+        else:
+            # a replica whose process has a past: the whole history is first replayed on a throw-away database
+            args.append("--prerun")
+        hv(args, cwd=wd, env=env)
         outs.append(b)
     return outs
 
@@ -111,6 +117,12 @@ def run_family(c, prop, mode, nscen, maxlen, followers, exhaustive=True):
     full = []
     for i, steps in enumerate(scripts):
         cfg = genesis_cfg(c.seed * 1000 + i)
+        if i % 4 == 3:
+            cfg["baseFee"] = "7"          # a base fee so small that its relative changes round to the minimum step
+        if i % 3 == 1:
+            cfg["historicalEntries"] = 3   # the header history BLOCKHASH is served from is pruned after three blocks
+        if i % 5 == 4:
+            cfg["genesisTime"] = "2027-12-31T20:00:00Z"   # the hours before a leap year begins
         if mode == "C20":
             steps = steps + c20_epilogue(steps, i)
             cfg["noPrecompiles"] = i % 3 == 2 and i % 6 != 5
